@@ -15,6 +15,13 @@
 (* at the introducer since (its request was processed there) must be handed out - and asked to      *)
 (* puncture - at the address it has NOW (HandsOutCurrent, HoldsWorking, Reach with intros.ok).      *)
 (* Long uptimes: every host starts with Lamport clock Clock0; identifiers on the wire are 16 bit.   *)
+(* Several overlays per host (Svcs): one key, one endpoint, one Network (verified peers, known      *)
+(* addresses, services_per_peer are shared), my_estimated_wan / script / walk per overlay; "a peer  *)
+(* of this overlay" = verified peer that advertised the service (Network.get_peers_for_service).    *)
+(* History in ANOTHER overlay: requester and introduced peer may already hold each other there.     *)
+(* Neighbours over another interface (nbrs): verified peers of a host whose preferred address is    *)
+(* IPv6; the simulated IPv4 network does not carry datagrams to them.  An old-style (IPv4-only)     *)
+(* response cannot name them, so they are not eligible as introduction for an old-style requester.  *)
 EXTENDS Naturals, Sequences, FiniteSets, TLC
 
 CONSTANTS K,             \* candidates B1..BK contact the introducer (exhaustive Init only)
@@ -30,12 +37,21 @@ CONSTANTS K,             \* candidates B1..BK contact the introducer (exhaustive
           MaxRebinds,    \* how many NAT mappings may be lost in one behaviour (0: the static network)
           Clock0,        \* Lamport clock every host starts with (exhaustive Init only): uptime before the scenario
           Refresh,       \* TRUE: a signed message from a verified peer updates its address (the code). FALSE: control
-          Ident16        \* TRUE: introduction-request identifiers are the clock modulo 2^16 (the code). FALSE: control
+          Ident16,       \* TRUE: introduction-request identifiers are the clock modulo 2^16 (the code). FALSE: control
+          Svcs,          \* the overlays every host runs on its one Network ("M" is the one the IPv6 neighbours are in)
+          Phased,        \* TRUE: overlay "M" starts only when the other overlays are done (they are its history)
+          V6N,           \* IPv6 neighbours every candidate starts with (exhaustive Init only)
+          StyleAware,    \* TRUE: a peer is introduced only in a response that can carry its address (the code). FALSE: control
+          SvcWalkable    \* TRUE: walkable = not an address of a peer OF THIS OVERLAY (the code). FALSE: control (any verified peer)
 
 Zero     == <<"0.0.0.0", 0>>
 PortBase == 20000
 Kinds    == {"fullCone", "addrRestricted", "portRestricted"}
 Names    == <<"B1", "B2", "B3", "B4", "B5">>
+NbrNames == <<"N1", "N2", "N3">>
+NbrAddr  == [N1 |-> <<"fd00::11", 8090>>, N2 |-> <<"fd00::12", 8090>>, N3 |-> <<"fd00::13", 8090>>]
+V6Ips    == {"fd00::11", "fd00::12", "fd00::13"}
+IsV6(a)  == a[1] \in V6Ips
 Whys     == {"hairpin", "private-unroutable", "no-mapping", "filtered-addr", "filtered-port", "no-host"}
 
 VARIABLES
@@ -46,11 +62,14 @@ VARIABLES
   extip,      \* NAT id -> external ip
   priv,       \* set of ips inside the private (LAN) ranges
   walkers,    \* hosts that follow up on introductions (walk to every address they learn)
-  contacts,   \* host -> how often it contacts the introducer (first walk_to, then send_introduction_request)
+  contacts,   \* host -> overlay -> how often it contacts the introducer (first walk_to, then send_introduction_request)
+  nbrs,       \* host -> IPv6 neighbours (keys) it holds as verified peers of overlay "M" when the scenario starts
   \* ---- overlay state per host
-  wan,        \* host -> my_estimated_wan          (my_estimated_lan = sock[h], constant)
-  peers,      \* host -> set of [k, addr, lan, ns] : verified peers (UDPv4Address slot, UDPv4LANAddress slot, new_style_intro)
-  known,      \* host -> set of [a, by, ns]        : Network._all_addresses
+  wan,        \* host -> overlay -> my_estimated_wan          (my_estimated_lan = sock[h], constant)
+  peers,      \* host -> set of [k, addr, a6, lan, ns] : verified peers (UDPv4Address, UDPv6Address, UDPv4LANAddress
+              \*                                         slots, new_style_intro); the preferred address is Pref(r)
+  known,      \* host -> set of [a, by, ns, svc]   : Network._all_addresses
+  svcs,       \* host -> set of [k, s]             : Network.services_per_peer
   gt,         \* host -> global time (claim_global_time)
   \* ---- NAT boxes and wire
   mapping,    \* NAT id -> set of [int, port]
@@ -59,17 +78,17 @@ VARIABLES
   nsent,      \* datagrams ever transmitted (datagram ids)
   nports,     \* NAT id -> external ports handed out so far (a lost mapping's port is not used again)
   \* ---- script / history
-  contacted,  \* host -> contacts made
-  walked,     \* host -> introduced addresses already walked to
-  intros,     \* introductions made by "I":  [req, cand, reqaddr, candaddr, ok, cur]  (ok: cand had registered
+  contacted,  \* host -> overlay -> contacts made
+  walked,     \* host -> overlay -> introduced addresses already walked to
+  intros,     \* introductions made by "I":  [ov, req, cand, reqaddr, candaddr, ok, cur]  (ok: cand had registered
               \*   from its present mapping when it was handed out; cur: where cand was reachable at that moment)
   puncAsked,  \* puncture requests emitted:  [to, wanw]
   stale,      \* hosts whose NAT mapping was lost and whose next request has not been processed by "I" yet
   nrebind     \* mappings lost so far
 
-topo  == <<natOf, kind, sock, extip, priv, walkers, contacts>>
-vars  == <<natOf, kind, sock, extip, priv, walkers, contacts, wan, peers, known, gt, mapping, allowed, net, nsent,
-           nports, contacted, walked, intros, puncAsked, stale, nrebind>>
+topo  == <<natOf, kind, sock, extip, priv, walkers, contacts, nbrs>>
+vars  == <<natOf, kind, sock, extip, priv, walkers, contacts, nbrs, wan, peers, known, svcs, gt, mapping, allowed,
+           net, nsent, nports, contacted, walked, intros, puncAsked, stale, nrebind>>
 
 Hosts      == DOMAIN natOf
 Cands      == Hosts \ {"I", "A"}
@@ -89,16 +108,18 @@ LanInA == [B1 |-> "192.168.1.11", B2 |-> "192.168.1.12", B3 |-> "192.168.1.13", 
 Port   == [I |-> 8090, A |-> 8091, B1 |-> 8101, B2 |-> 8102, B3 |-> 8103, B4 |-> 8104, B5 |-> 8105]
 
 InitOverlay ==
-  /\ wan = [h \in Hosts |-> sock[h]]          \* EndpointListener.__init__: my_estimated_wan = my_estimated_lan
-  /\ peers = [h \in Hosts |-> {}]
-  /\ known = [h \in Hosts |-> {}]
+  /\ wan = [h \in Hosts |-> [s \in Svcs |-> sock[h]]]   \* EndpointListener.__init__: my_estimated_wan = my_estimated_lan
+  \* what a host holds about a neighbour it walked to over IPv6 (add_verified_peer + discover_services)
+  /\ peers = [h \in Hosts |-> {[k |-> n, addr |-> Zero, a6 |-> NbrAddr[n], lan |-> Zero, ns |-> TRUE] : n \in nbrs[h]}]
+  /\ known = [h \in Hosts |-> {[a |-> NbrAddr[n], by |-> "", ns |-> FALSE, svc |-> ""] : n \in nbrs[h]}]
+  /\ svcs = [h \in Hosts |-> {[k |-> n, s |-> "M"] : n \in nbrs[h]}]
   /\ mapping = [n \in Nats |-> {}]
   /\ allowed = [n \in Nats |-> {}]
   /\ nports = [n \in Nats |-> 0]
   /\ net = {} /\ nsent = 0
   /\ stale = {} /\ nrebind = 0
-  /\ contacted = [h \in Hosts |-> 0]
-  /\ walked = [h \in Hosts |-> {}]
+  /\ contacted = [h \in Hosts |-> [s \in Svcs |-> 0]]
+  /\ walked = [h \in Hosts |-> [s \in Svcs |-> {}]]
   /\ intros = {} /\ puncAsked = {}
 
 Init ==
@@ -122,7 +143,8 @@ Init ==
        /\ extip = [n \in {"A"} \cup C |-> IpExt[n]]
        /\ priv = {LanOwn[h] : h \in H \ {"I"}} \cup {LanInA[c] : c \in C}
        /\ walkers = IF FollowAll THEN H \ {"I"} ELSE {"A"}
-       /\ contacts = [h \in H |-> IF h = "I" THEN 0 ELSE IF h = "A" THEN nA ELSE nB[h]]
+       /\ contacts = [h \in H |-> [s \in Svcs |-> IF h = "I" THEN 0 ELSE IF h = "A" THEN nA ELSE nB[h]]]
+       /\ nbrs = [h \in H |-> IF h \in C THEN {NbrNames[i] : i \in 1..V6N} ELSE {}]
   /\ InitOverlay
   /\ gt = [h \in Hosts |-> Clock0]
 
@@ -142,8 +164,8 @@ Out1(h, dst, mp, al, np) ==
            al  |-> [al EXCEPT ![n] = @ \cup {[port |-> port, remote |-> dst]}],
            np  |-> IF ex # {} THEN np ELSE [np EXCEPT ![n] = @ + 1]]
 
-Msg(dst, knd, ns, dest, slan, swan, ilan, iwan, ins, ident) ==
-  [dst |-> dst, kind |-> knd, ns |-> ns, dest |-> dest, slan |-> slan, swan |-> swan, ilan |-> ilan,
+Msg(ov, dst, knd, ns, dest, slan, swan, ilan, iwan, ins, ident) ==
+  [ov |-> ov, dst |-> dst, kind |-> knd, ns |-> ns, dest |-> dest, slan |-> slan, swan |-> swan, ilan |-> ilan,
    iwan |-> iwan, ins |-> ins, ident |-> ident]
 
 RECURSIVE Xmit(_, _, _, _, _, _, _)
@@ -152,7 +174,7 @@ Xmit(h, msgs, i, mp, al, np, acc) ==
   IF i > Len(msgs) THEN [mp |-> mp, al |-> al, np |-> np, pkts |-> acc]
   ELSE LET m == msgs[i]
            o == Out1(h, m.dst, mp, al, np)
-           p == [id |-> nsent + i, from |-> h, src |-> o.src, via |-> o.via, dst |-> m.dst, kind |-> m.kind,
+           p == [id |-> nsent + i, from |-> h, ov |-> m.ov, src |-> o.src, via |-> o.via, dst |-> m.dst, kind |-> m.kind,
                  ns |-> m.ns, dest |-> m.dest, slan |-> m.slan, swan |-> m.swan, ilan |-> m.ilan,
                  iwan |-> m.iwan, ins |-> m.ins, ident |-> m.ident]
        IN Xmit(h, msgs, i + 1, o.mp, o.al, o.np, acc \cup {p})
@@ -194,63 +216,79 @@ Pub(h) == IF natOf[h] = "-" THEN sock[h]
 
 IsPeer(h, k)  == \E r \in peers[h] : r.k = k
 PeerOf(h, k)  == CHOOSE r \in peers[h] : r.k = k
-PeerAddrs(r)  == {r.addr} \cup (IF r.lan = Zero THEN {} ELSE {r.lan})
+PeerAddrs(r)  == {r.addr, r.a6, r.lan} \ {Zero}
+Pref(r)       == IF r.a6 # Zero THEN r.a6 ELSE r.addr           \* Peer.address: IPv6 before IPv4
+\* Network.get_peers_for_service: the verified peers that advertised the service
+InSvc(ps, sv, s) == {r \in ps : [k |-> r.k, s |-> s] \in sv}
+PeersIn(h, s) == InSvc(peers[h], svcs[h], s)
+Member(h, k, s) == \E r \in PeersIn(h, s) : r.k = k
 IsOwnIp(h, ip) == ip = sock[h][1]             \* EndpointListener.address_is_lan: one of this machine's interfaces
 
 \* lazy_wrapper: a known peer gets add_address(source), otherwise a fresh Peer(key, source)
 Touch(h, k, src) == IF IsPeer(h, k) THEN (IF Refresh THEN [PeerOf(h, k) EXCEPT !.addr = src] ELSE PeerOf(h, k))
-                    ELSE [k |-> k, addr |-> src, lan |-> Zero, ns |-> FALSE]
+                    ELSE [k |-> k, addr |-> src, a6 |-> Zero, lan |-> Zero, ns |-> FALSE]
 
 \* Network.add_verified_peer for a peer that was not verified before
 AddVerified(kn, r, wasKnown) ==
   IF wasKnown THEN kn
   ELSE IF PeerAddrs(r) \cap {x.a : x \in kn} # {} THEN kn
-  ELSE kn \cup {[a |-> x, by |-> "", ns |-> FALSE] : x \in PeerAddrs(r)}
+  ELSE kn \cup {[a |-> x, by |-> "", ns |-> FALSE, svc |-> ""] : x \in PeerAddrs(r)}
 
-\* Network.discover_address
-Discover(kn, vk, by, a, ns) ==
+\* Network.discover_address (service: the overlay in which the introduction arrived)
+Discover(kn, vk, by, a, ns, s) ==
   LET cur == {x \in kn : x.a = a} IN
   IF cur = {} \/ (\A x \in cur : x.by \notin vk)
-  THEN (kn \ cur) \cup {[a |-> a, by |-> by, ns |-> ns]} ELSE kn
+  THEN (kn \ cur) \cup {[a |-> a, by |-> by, ns |-> ns, svc |-> s]} ELSE kn
 
-RECURSIVE DiscoverAll(_, _, _, _, _)
-DiscoverAll(kn, vk, by, as, ns) ==
-  IF as = <<>> THEN kn ELSE DiscoverAll(Discover(kn, vk, by, Head(as), ns), vk, by, Tail(as), ns)
+RECURSIVE DiscoverAll(_, _, _, _, _, _)
+DiscoverAll(kn, vk, by, as, ns, s) ==
+  IF as = <<>> THEN kn ELSE DiscoverAll(Discover(kn, vk, by, Head(as), ns, s), vk, by, Tail(as), ns, s)
 
-\* Network.get_walkable_addresses(service): introduced addresses that are not an address of a verified peer
-WalkableOf(kn, ps) == {x.a : x \in {y \in kn : y.by # ""}} \ UNION {PeerAddrs(r) : r \in ps}
-Walkable(h) == WalkableOf(known[h], peers[h])
+\* Network.get_walkable_addresses(service): known addresses that are not an address of a verified peer OF THAT
+\* SERVICE and that were learned in the service or from a peer that is in it
+WalkableOf(kn, ps, sv, s) ==
+  {x.a : x \in {y \in kn : y.svc = s \/ [k |-> y.by, s |-> s] \in sv}}
+    \ UNION {PeerAddrs(r) : r \in IF SvcWalkable THEN InSvc(ps, sv, s) ELSE ps}
+Walkable(h, s) == WalkableOf(known[h], peers[h], svcs[h], s)
 
 (* walk_to(address) *)
 (* create_introduction_request: the identifier is the claimed global time reduced to the 16 bit of the wire field *)
 Ident(t) == IF Ident16 THEN t % 65536 ELSE t
-IReqMsg(h, dst, ns) == Msg(dst, "ireq", ns, dst, sock[h], wan[h], Zero, Zero, FALSE, Ident(gt[h] + 1))
+\* (a request to an IPv6 address is always new-style)
+IReqMsg(h, s, dst, ns) == Msg(s, dst, "ireq", ns \/ IsV6(dst), dst, sock[h], wan[h][s], Zero, Zero, FALSE, Ident(gt[h] + 1))
 
 IsNewStyle(h, a) == \E x \in known[h] : x.a = a /\ x.ns
 
 (* the node contacts the introducer: first walk_to(address of I), later send_introduction_request(peer I) *)
-Contact(h) ==
-  /\ h \in Hosts \ {"I"} /\ contacted[h] < contacts[h]
+\* the other overlays are the history of "M": their script has run and everything they learned is followed up
+OthersDone == /\ net = {}
+              /\ \A g \in Hosts \ {"I"}, t \in Svcs \ {"M"} : contacted[g][t] = contacts[g][t]
+              /\ \A g \in walkers, t \in Svcs \ {"M"} : Walkable(g, t) \subseteq walked[g][t]
+
+Contact(h, s) ==
+  /\ h \in Hosts \ {"I"} /\ s \in Svcs /\ contacted[h][s] < contacts[h][s]
   /\ QuietCalls => net = {}
-  /\ IF contacted[h] = 0
-     THEN Transmit(h, <<IReqMsg(h, sock["I"], IsNewStyle(h, sock["I"]))>>, {})
+  /\ (Phased /\ s = "M") => OthersDone
+  /\ IF contacted[h][s] = 0
+     THEN Transmit(h, <<IReqMsg(h, s, sock["I"], IsNewStyle(h, sock["I"]))>>, {})
      ELSE /\ IsPeer(h, "I")
-          /\ Transmit(h, <<IReqMsg(h, PeerOf(h, "I").addr, PeerOf(h, "I").ns)>>, {})
+          /\ Transmit(h, <<IReqMsg(h, s, Pref(PeerOf(h, "I")), PeerOf(h, "I").ns)>>, {})
   /\ gt' = [gt EXCEPT ![h] = @ + 1]
-  /\ contacted' = [contacted EXCEPT ![h] = @ + 1]
-  /\ UNCHANGED <<topo, wan, peers, known, walked, intros, puncAsked, stale, nrebind>>
+  /\ contacted' = [contacted EXCEPT ![h][s] = @ + 1]
+  /\ UNCHANGED <<topo, wan, peers, known, svcs, walked, intros, puncAsked, stale, nrebind>>
 
 PunctureSettled == \A p \in net : p.kind \notin {"preq", "punc"}
 
 (* the requester's next contact attempt: walk_to(a) for an address learned from an introduction *)
-IntroWalk(h, a) ==
-  /\ h \in Walkers /\ a \in Walkable(h) \ walked[h]
+IntroWalk(h, s, a) ==
+  /\ h \in Walkers /\ s \in Svcs /\ a \in Walkable(h, s) \ walked[h][s]
   /\ PunctureFirst => PunctureSettled
   /\ QuietCalls => net = {}
-  /\ Transmit(h, <<IReqMsg(h, a, IsNewStyle(h, a))>>, {})
+  /\ (Phased /\ s = "M") => OthersDone
+  /\ Transmit(h, <<IReqMsg(h, s, a, IsNewStyle(h, a))>>, {})
   /\ gt' = [gt EXCEPT ![h] = @ + 1]
-  /\ walked' = [walked EXCEPT ![h] = @ \cup {a}]
-  /\ UNCHANGED <<topo, wan, peers, known, contacted, intros, puncAsked, stale, nrebind>>
+  /\ walked' = [walked EXCEPT ![h][s] = @ \cup {a}]
+  /\ UNCHANGED <<topo, wan, peers, known, svcs, contacted, intros, puncAsked, stale, nrebind>>
 
 Pkt(id) == CHOOSE p \in net : p.id = id
 
@@ -261,34 +299,43 @@ DeliverIReq(id) ==
          h  == Route(p).to
      IN /\ h \in Hosts
         /\ LET wasKnown == IsPeer(h, p.from)
+               s   == p.ov
                r   == [Touch(h, p.from, p.src) EXCEPT !.lan = p.slan, !.ns = (@ \/ p.ns)]
                ps  == {x \in peers[h] : x.k # p.from} \cup {r}
+               sv  == svcs[h] \cup {[k |-> p.from, s |-> s]}       \* discover_services(peer, [community_id])
                kn  == AddVerified(known[h], r, wasKnown)
-               oth == {x \in ps : r.addr \in PeerAddrs(x)}      \* get_verified_by_address(socket_address)
-               resp(ilan, iwan, ins) == Msg(r.addr, "iresp", r.ns, r.addr, sock[h], wan[h], ilan, iwan, ins, p.ident)
+               ra  == Pref(r)
+               oth == {x \in ps : ra \in PeerAddrs(x)}          \* get_verified_by_address(socket_address)
+               resp(ilan, iwan, ins) == Msg(s, ra, "iresp", r.ns, ra, sock[h], wan[h][s], ilan, iwan, ins, p.ident)
            IN \E o \in oth :
-                LET avail == {x \in ps : x.k # o.k} IN
+                \* get_peer_for_introduction: a peer of this overlay, not the requester, whose address the response
+                \* can carry (an old-style response is IPv4 only)
+                LET avail == {x \in InSvc(ps, sv, s) : x.k # o.k /\ (StyleAware => (r.ns \/ ~IsV6(Pref(x))))} IN
                 /\ peers' = [peers EXCEPT ![h] = ps]
                 /\ known' = [known EXCEPT ![h] = kn]
+                /\ svcs' = [svcs EXCEPT ![h] = sv]
                 /\ IF avail = {}
                    THEN /\ Transmit(h, <<resp(Zero, Zero, FALSE)>>, {p})
                         /\ gt' = [gt EXCEPT ![h] = @ + 1]
                         /\ UNCHANGED <<intros, puncAsked>>
                    ELSE \E c \in avail :
-                          LET same == IsOwnIp(h, c.addr[1])
-                              ilan == IF same THEN c.addr ELSE c.lan
-                              iwan == IF same THEN <<wan[h][1], c.addr[2]>> ELSE c.addr
-                              preq == Msg(c.addr, "preq", r.ns, Zero, p.dest, r.addr, Zero, Zero, FALSE, p.ident)
+                          LET ca   == Pref(c)
+                              same == ~IsV6(ca) /\ IsOwnIp(h, ca[1])
+                              ilan == IF same THEN ca ELSE c.lan
+                              iwan == IF same THEN <<wan[h][s][1], ca[2]>> ELSE ca
+                              preq == Msg(s, ca, "preq", r.ns, Zero, p.dest, ra, Zero, Zero, FALSE, p.ident)
+                              \* (control only) the response cannot be encoded: the handler ends after the puncture request
+                              fits == r.ns \/ ~IsV6(ca)
                           IN /\ IF SendPuncture
-                                THEN /\ Transmit(h, <<preq, resp(ilan, iwan, c.ns)>>, {p})
+                                THEN /\ Transmit(h, IF fits THEN <<preq, resp(ilan, iwan, c.ns)>> ELSE <<preq>>, {p})
                                      /\ gt' = [gt EXCEPT ![h] = @ + 2]
-                                     /\ puncAsked' = puncAsked \cup {[to |-> c.addr, wanw |-> r.addr]}
+                                     /\ puncAsked' = puncAsked \cup {[to |-> ca, wanw |-> ra]}
                                 ELSE /\ Transmit(h, <<resp(ilan, iwan, c.ns)>>, {p})
                                      /\ gt' = [gt EXCEPT ![h] = @ + 1]
                                      /\ UNCHANGED puncAsked
                              /\ intros' = IF h = "I"
-                                          THEN intros \cup {[req |-> p.from, cand |-> c.k, reqaddr |-> r.addr,
-                                                             candaddr |-> c.addr, ok |-> c.k \notin stale,
+                                          THEN intros \cup {[ov |-> s, req |-> p.from, cand |-> c.k, reqaddr |-> ra,
+                                                             candaddr |-> ca, ok |-> c.k \notin stale,
                                                              cur |-> Pub(c.k)]}
                                           ELSE intros
         /\ stale' = IF h = "I" THEN stale \ {p.from} ELSE stale    \* "I" has seen where p.from is now
@@ -301,9 +348,10 @@ DeliverIResp(id) ==
          h  == Route(p).to
      IN /\ h \in Hosts
         /\ LET wasKnown == IsPeer(h, p.from)
+               s    == p.ov
                r    == [Touch(h, p.from, p.src) EXCEPT !.ns = TRUE]
                ps   == {x \in peers[h] : x.k # p.from} \cup {r}
-               w    == IF p.dest[1] \notin priv THEN p.dest ELSE wan[h]
+               w    == IF p.dest[1] \notin priv THEN p.dest ELSE wan[h][s]
                kn   == AddVerified(known[h], r, wasKnown)
                vk   == {x.k : x \in ps}
                intr == IF p.iwan # Zero /\ p.iwan[1] # w[1]
@@ -311,9 +359,10 @@ DeliverIResp(id) ==
                        ELSE IF p.ilan # Zero /\ p.iwan[1] = w[1] THEN <<p.ilan>>
                        ELSE IF p.iwan # Zero THEN <<p.iwan, <<sock[h][1], p.iwan[2]>> >>
                        ELSE <<>>
-           IN /\ wan' = [wan EXCEPT ![h] = w]
+           IN /\ wan' = [wan EXCEPT ![h][s] = w]
               /\ peers' = [peers EXCEPT ![h] = ps]
-              /\ known' = [known EXCEPT ![h] = DiscoverAll(kn, vk, p.from, intr, p.ins)]
+              /\ svcs' = [svcs EXCEPT ![h] = @ \cup {[k |-> p.from, s |-> s]}]
+              /\ known' = [known EXCEPT ![h] = DiscoverAll(kn, vk, p.from, intr, p.ins, s)]
         /\ Transmit(h, <<>>, {p})
   /\ UNCHANGED <<topo, gt, contacted, walked, intros, puncAsked, stale, nrebind>>
 
@@ -323,10 +372,10 @@ DeliverPReq(id) ==
   /\ LET p  == Pkt(id)
          h  == Route(p).to
      IN /\ h \in Hosts
-        /\ LET target == IF p.swan[1] = wan[h][1] THEN p.slan ELSE p.swan
-           IN Transmit(h, <<Msg(target, "punc", p.ns, Zero, sock[h], p.swan, Zero, Zero, FALSE, p.ident)>>, {p})
+        /\ LET target == IF p.swan[1] = wan[h][p.ov][1] THEN p.slan ELSE p.swan
+           IN Transmit(h, <<Msg(p.ov, target, "punc", p.ns, Zero, sock[h], p.swan, Zero, Zero, FALSE, p.ident)>>, {p})
         /\ gt' = [gt EXCEPT ![h] = @ + 1]
-  /\ UNCHANGED <<topo, wan, peers, known, contacted, walked, intros, puncAsked, stale, nrebind>>
+  /\ UNCHANGED <<topo, wan, peers, known, svcs, contacted, walked, intros, puncAsked, stale, nrebind>>
 
 (* on_puncture: the handler does nothing, lazy_wrapper updates the address of a known sender *)
 DeliverPunc(id) ==
@@ -337,7 +386,7 @@ DeliverPunc(id) ==
         /\ peers' = [peers EXCEPT ![h] = IF IsPeer(h, p.from)
                                          THEN {x \in @ : x.k # p.from} \cup {Touch(h, p.from, p.src)} ELSE @]
         /\ Transmit(h, <<>>, {p})
-  /\ UNCHANGED <<topo, wan, known, gt, contacted, walked, intros, puncAsked, stale, nrebind>>
+  /\ UNCHANGED <<topo, wan, known, svcs, gt, contacted, walked, intros, puncAsked, stale, nrebind>>
 
 (* the network cannot deliver the datagram (NAT filter, private address, hair-pin) *)
 Lose(id, why) ==
@@ -345,11 +394,11 @@ Lose(id, why) ==
   /\ LET p == Pkt(id) IN
        /\ Route(p).to = "-" /\ Route(p).why = why
        /\ net' = net \ {p}
-  /\ UNCHANGED <<topo, wan, peers, known, gt, mapping, allowed, nsent, nports, contacted, walked, intros, puncAsked,
-                 stale, nrebind>>
+  /\ UNCHANGED <<topo, wan, peers, known, svcs, gt, mapping, allowed, nsent, nports, contacted, walked, intros,
+                 puncAsked, stale, nrebind>>
 
-ScriptDone == \A h \in Hosts \ {"I"} : contacted[h] = contacts[h]
-AllWalked  == \A h \in Walkers : Walkable(h) \subseteq walked[h]
+ScriptDone == \A h \in Hosts \ {"I"}, s \in Svcs : contacted[h][s] = contacts[h][s]
+AllWalked  == \A h \in Walkers, s \in Svcs : Walkable(h, s) \subseteq walked[h][s]
 (* History: the NAT in front of h loses h's mapping and its filter entries (router reboot, mapping expiry) while  *)
 (* the system is at rest (nothing in flight, every introduction followed up).  The next datagram of h leaves from *)
 (* a fresh external port; what others hold about h is out of date until h has contacted them again.              *)
@@ -364,7 +413,7 @@ Rebind(h) ==
         /\ allowed' = [allowed EXCEPT ![n] = {x \in @ : x.port \notin {m.port : m \in ms}}]
   /\ stale' = stale \cup {h}
   /\ nrebind' = nrebind + 1
-  /\ UNCHANGED <<topo, wan, peers, known, gt, net, nsent, nports, contacted, walked, intros, puncAsked>>
+  /\ UNCHANGED <<topo, wan, peers, known, svcs, gt, net, nsent, nports, contacted, walked, intros, puncAsked>>
 
 (* every behaviour ends here: TLC's deadlock check reports any other terminal state *)
 Idle == net = {} /\ ScriptDone /\ AllWalked /\ UNCHANGED vars
@@ -374,10 +423,10 @@ AllHosts == {"I", "A"} \cup {Names[i] : i \in 1..K}
 AllIps   == {IpPub[h] : h \in AllHosts} \cup {IpExt[h] : h \in AllHosts \ {"I"}}
             \cup {LanOwn[h] : h \in AllHosts \ {"I"}} \cup {LanInA[h] : h \in AllHosts \ {"I", "A"}}
 AllPorts == {Port[h] : h \in AllHosts} \cup (PortBase .. PortBase + K + 1 + MaxRebinds)
-AllAddrs == AllIps \X AllPorts
+AllAddrs == (AllIps \X AllPorts) \cup {NbrAddr[NbrNames[i]] : i \in 1..V6N}
 
-Next == \/ \E h \in AllHosts : Contact(h)
-        \/ \E h \in AllHosts, a \in AllAddrs : IntroWalk(h, a)
+Next == \/ \E h \in AllHosts, s \in Svcs : Contact(h, s)
+        \/ \E h \in AllHosts, s \in Svcs, a \in AllAddrs : IntroWalk(h, s, a)
         \/ \E id \in 1..MaxId : DeliverIReq(id)
         \/ \E id \in 1..MaxId : DeliverIResp(id)
         \/ \E id \in 1..MaxId : DeliverPReq(id)
@@ -392,7 +441,7 @@ Spec == Init /\ [][Next]_vars
 TypeOK ==
   /\ \A h \in Hosts : /\ Cardinality({r.k : r \in peers[h]}) = Cardinality(peers[h])
                       /\ Cardinality({x.a : x \in known[h]}) = Cardinality(known[h])
-                      /\ \A r \in peers[h] : r.k \in Hosts \ {h}
+                      /\ \A r \in peers[h] : r.k \in (Hosts \ {h}) \cup nbrs[h]
   /\ \A n \in Nats : /\ Cardinality({m.int : m \in mapping[n]}) = Cardinality(mapping[n])
                      /\ Cardinality({m.port : m \in mapping[n]}) = Cardinality(mapping[n])
                      /\ \A x \in allowed[n] : \E m \in mapping[n] : m.port = x.port
@@ -403,10 +452,12 @@ Quiet     == net = {}
 Done      == Quiet /\ AllWalked
 SameNat(a, b) == natOf[a] # "-" /\ natOf[a] = natOf[b]
 Mutual(a, b)  == IsPeer(a, b) /\ IsPeer(b, a)
+\* get_peers() of the overlay on both sides
+MutualIn(a, b, s) == Member(a, b, s) /\ Member(b, a, s)
 
 (* C13: the introduced peer and the requester end up as verified peers of each other.  i.ok: when it was handed  *)
 (* out, the introduced peer had registered at the introducer from the mapping it had at that time.               *)
-Reach == Done => \A i \in intros : (i.req \in Walkers /\ i.ok) => Mutual(i.req, i.cand)
+Reach == Done => \A i \in intros : (i.req \in Walkers /\ i.ok) => MutualIn(i.req, i.cand, i.ov)
 (* C13: "the addresses it hands out are the ones that work" - an introduced peer that registered from its present *)
 (* mapping is handed out at that mapping, and that is where the requester holds it after its contact attempt      *)
 (* (i.cur: where the introduced peer was reachable when it was handed out)                                        *)
